@@ -59,6 +59,11 @@ fn one_run(bi: usize, ops: &[Value], rounds: u8, tr: &mut Trace) -> RunOut {
     let b = Matter::new(&TEST_DEV_DET, TEST_DEV_COMM, &TEST_DEV_ATT, 5540);
     plant(&a, NODE_A, NODE_B, 1, 1, 1);
     plant(&b, NODE_B, NODE_A, 0, 1, 1);
+    // idle sessions with other peers (300 + k) on both nodes: a schedule may have those peers close them at any time
+    for k in 0..4u16 {
+        plant(&a, NODE_A, 300 + k as u64, 1, 40 + k, 40 + k);
+        plant(&b, NODE_B, 300 + k as u64, 0, 40 + k, 40 + k);
+    }
     let crypto = test_only_crypto();
     let events: RefCell<Vec<Value>> = RefCell::new(Vec::new());
     let ev = |mut v: Value| {
@@ -144,7 +149,10 @@ fn one_run(bi: usize, ops: &[Value], rounds: u8, tr: &mut Trace) -> RunOut {
         drop: Vec<u64>,
         dup: Vec<u64>,
         delay: Vec<(u64, u64)>,
+        /// (node, time): at that time the peer of one of the node's idle sessions closes it (CloseSession)
+        closes: Vec<(u64, u64)>,
     }
+    let mut n_closed = [0u16; 2];
     let mut auto: Option<Auto> = None;
     let mut ordinal = 0u64;
     let mut queue: Vec<(u64, crate::sim::Dgram)> = Vec::new();
@@ -234,7 +242,7 @@ fn one_run(bi: usize, ops: &[Value], rounds: u8, tr: &mut Trace) -> RunOut {
                 "Auto" => {
                     let l = |k: &str| op[k].as_array().map(|a| a.iter().map(|x| x.as_u64().unwrap()).collect()).unwrap_or_default();
                     let pairs = |k: &str| -> Vec<(u64, u64)> { op[k].as_array().map(|a| a.iter().map(|x| (x[0].as_u64().unwrap(), x[1].as_u64().unwrap())).collect()).unwrap_or_default() };
-                    auto = Some(Auto { drop: l("drop"), dup: l("dup"), delay: pairs("delay") });
+                    auto = Some(Auto { drop: l("drop"), dup: l("dup"), delay: pairs("delay"), closes: pairs("closes") });
                     // slow network sends: [node, ordinal of the send call, ms]
                     if let Some(a) = op["slow"].as_array() {
                         let mut n = net.borrow_mut();
@@ -276,13 +284,38 @@ fn one_run(bi: usize, ops: &[Value], rounds: u8, tr: &mut Trace) -> RunOut {
             }
         }
         let now = sim::now_ms();
+        // another peer closes one of the idle sessions of a node
+        if let Some(a) = auto.as_mut() {
+            if let Some(pos) = a.closes.iter().position(|c| c.1 <= now) {
+                let (node, _) = a.closes.remove(pos);
+                let node = node as usize % 2;
+                let k = n_closed[node];
+                if k < 4 {
+                    n_closed[node] += 1;
+                    let mut hdr = rs_matter::transport::packet::PacketHdr::new();
+                    hdr.plain.sess_id = 40 + k;
+                    hdr.plain.ctr = 5000 + k as u32;
+                    hdr.proto.exch_id = 700 + k;
+                    hdr.proto.proto_id = 0;
+                    hdr.proto.proto_opcode = 0x40;
+                    hdr.proto.set_initiator();
+                    let mut buf = vec![0u8; 128];
+                    let mut wb = rs_matter::utils::storage::WriteBuf::new(&mut buf);
+                    wb.reserve(rs_matter::transport::packet::PacketHdr::HDR_RESERVE).unwrap();
+                    wb.append(&[0, 0, 0, 0, 0, 0, 3, 0]).unwrap();
+                    hdr.encode(test_only_crypto(), Some(CanonAeadKey::new().reference()), 300 + k as u64, &mut wb).unwrap();
+                    tr.ev(json!({"ev": "OtherClosed", "n": nm(node), "k": k, "t": now}));
+                    return Step::Inject { src: 1 - node, dst: node, data: wb.as_slice().to_vec() };
+                }
+            }
+        }
         if let Some(pos) = queue.iter().position(|q| q.0 <= now) {
             let (_, d) = queue.remove(pos);
             let c = u32::from_le_bytes([d.data[4], d.data[5], d.data[6], d.data[7]]);
             tr.ev(json!({"ev": "Dlv", "from": nm(d.src), "ctr": c, "t": sim::now_ms()}));
             return Step::Inject { src: d.src, dst: d.dst, data: d.data };
         }
-        let next_rel = queue.iter().map(|q| q.0).min();
+        let next_rel = queue.iter().map(|q| q.0).chain(auto.iter().flat_map(|a| a.closes.iter().map(|c| c.1))).min();
         match (next_rel, sim::next_timer_ms()) {
             (Some(r), Some(t)) if t < r => return Step::NextTimer,
             (Some(r), _) => return Step::AdvanceMs(r - now),
